@@ -64,16 +64,21 @@ Section Derivative.
   (** SymPy's differentiation agrees in value with the verified formal derivative *)
   Hypothesis sdiff_ok : forall x e env, eval env (sdiff x e) == eval env (D x e).
 
-  Theorem jacobian_is_derivative F m eqs env :
+  (** for whatever the symbol table is made of: the entry is the partial derivative with every OTHER
+      key of the table held fixed -- which is the derivative of the numeric right-hand side exactly when
+      the keys are independent quantities (variables, parameters, data: the shipped table), and is NOT
+      when a key is a function of the state (a surrogate output: Witness.w4) *)
+  Theorem jacobian_is_derivative_table F m eqs env names :
+    table_names F m = Some names ->
     to_symbolic fsym F m = SymOk eqs -> Resolved fsem m env ->
     forall i j vi xj, nth_error (m_vars m) i = Some vi -> nth_error (m_vars m) j = Some xj ->
     exists row d, nth_error (jacobian sdiff eqs (m_vars m)) i = Some row /\ nth_error row j = Some d /\
       exists B, 0 <= B /\
         forall h env', Qabs h <= 1 -> Resolved fsem m env' ->
-          (forall n, In n (base_names m) -> env' n == upd env xj (env xj + h) n) ->
+          (forall n, In n names -> env' n == upd env xj (env xj + h) n) ->
           Qabs (num_rhs fsem m env' vi - num_rhs fsem m env vi - h * eval env d) <= B * (h * h).
   Proof.
-    intros Hconv Hres i j vi xj Hi Hj.
+    intros Hnames Hconv Hres i j vi xj Hi Hj.
     pose proof (to_symbolic_sound fsym fsem fsym_sound fsem_proper env F m eqs Hres Hconv) as Hs.
     destruct (Forall2_nth _ _ _ i vi Hs Hi) as [e [He Hev]].
     destruct (jacobian_layout sdiff eqs (m_vars m) i j e xj He Hj) as [row [Hrow Hd]].
@@ -82,11 +87,25 @@ Section Derivative.
     exists B. split; [exact HB|]. intros h env' Hh Hres' Hagree.
     pose proof (to_symbolic_sound fsym fsem fsym_sound fsem_proper env' F m eqs Hres' Hconv) as Hs'.
     pose proof (Forall2_nth_both _ _ _ i e vi Hs' He Hi) as Hev'. cbn beta in Hev'.
-    assert (Hsy : incl (syms e) (base_names m)).
-    { eapply (to_symbolic_syms fsym fsym_syms F m eqs Hconv). eapply nth_error_In. exact He. }
+    assert (Hsy : incl (syms e) names).
+    { destruct (to_symbolic_syms_table fsym fsym_syms F m eqs Hconv) as [names' [E Hin]].
+      rewrite Hnames in E. injection E as E. subst names'. apply Hin. eapply nth_error_In. exact He. }
     assert (E1 : num_rhs fsem m env' vi == eval (upd env xj (env xj + h)) e).
     { rewrite <- Hev'. apply eval_ext. intros n Hn. apply Hagree. apply Hsy. exact Hn. }
     rewrite E1. rewrite <- Hev. rewrite (sdiff_ok xj e env). apply Hb. exact Hh.
+  Qed.
+
+  Theorem jacobian_is_derivative F m eqs env :
+    sf_symtab F = SymVarsParsData ->
+    to_symbolic fsym F m = SymOk eqs -> Resolved fsem m env ->
+    forall i j vi xj, nth_error (m_vars m) i = Some vi -> nth_error (m_vars m) j = Some xj ->
+    exists row d, nth_error (jacobian sdiff eqs (m_vars m)) i = Some row /\ nth_error row j = Some d /\
+      exists B, 0 <= B /\
+        forall h env', Qabs h <= 1 -> Resolved fsem m env' ->
+          (forall n, In n (base_names m) -> env' n == upd env xj (env xj + h) n) ->
+          Qabs (num_rhs fsem m env' vi - num_rhs fsem m env vi - h * eval env d) <= B * (h * h).
+  Proof.
+    intros HF. apply jacobian_is_derivative_table. unfold table_names. rewrite HF. reflexivity.
   Qed.
 End Derivative.
 
